@@ -126,6 +126,17 @@ Proof.
 Qed.
 Print Assumptions C06_call_out.
 
+(* a data member is never read through a null object: the call ends in an error (the std::runtime_error of throw_if_null,
+   unless the unboxing of the object already failed), nothing is entered *)
+Theorem C06_attr_null :
+  forall E f a, func_wf f = true -> f_kind f = KAttr -> b_null a = true ->
+    o_trace (call_one gen_rules E f [a]) = []
+    /\ (o_res (call_one gen_rules E f [a]) = Some ENull \/ o_res (call_one gen_rules E f [a]) = Some EArity
+        \/ exists p e, f_params f = [p] /\ boxed_cast gen_rules E (mkparam (p_ti p) (if b_const a then FCPtr else FPtr) 0) a = CErr e
+                       /\ o_res (call_one gen_rules E f [a]) = Some e).
+Proof. intros. apply attr_null_no_entry; auto using gen_rules_ok. Qed.
+Print Assumptions C06_attr_null.
+
 (* registration keeps exactly the registered overloads, whatever the order of registration *)
 Theorem C06_registration :
   forall fs f, In f (register_all fs) <-> In f fs.
